@@ -16,7 +16,7 @@ import hashlib
 import io
 
 from harness.common import REJECT, xb, unx, blist, batch_parallel, pmap
-from harness.c12 import (Toks, UnknownOp, tok_pt, tok_cmds, tok_tree, fmt_leaf, rbytes, make_keys, tagged, N)
+from harness.c12 import (par_batch, Toks, UnknownOp, tok_pt, tok_cmds, tok_tree, fmt_leaf, rbytes, make_keys, tagged, N)
 
 PROPERTY = "C13"
 DRIVERS = ["drv_c13"]
@@ -47,7 +47,12 @@ RULE = ("cases come from one PRNG seeded by VERIF_SEED plus fixed catalogues: pa
         "(R parity x external-key parity, aggregate parity x participant parity, tweaked/plain) has been taken — the "
         "distribution counts them; each session is re-submitted with one partial signature omitted, altered by a random "
         "delta, by +-1 and by a multiple of N; all (k, n) with 1 <= k <= n <= 5 for the tree generators. A case is "
-        "non-trivial when it involves at least one curve operation; distinct = distinct request lines / predicate inputs")
+        "non-trivial when it involves at least one curve operation; distinct = distinct request lines / predicate inputs. "
+        "Object-reuse histories: ONE MuSigTapScript object and ONE set of PrivateKey objects run 4-5 signing sessions in a "
+        "row with different messages, nonce sets and merkle roots (none, A, B, A again / A, none, B, none, A), with unrelated "
+        "tweaked_key queries in between and get_signature called twice; every stage is compared with the model evaluated "
+        "on the CURRENT arguments and every aggregate with the independent BIP340 verifier for the key tweaked with the "
+        "CURRENT root, that key computed from freshly built objects")
 CLAUSES = {
     "aggregate key independent of participant order": "proved (sort_sorted_perm, sort_perm, aggregate_key_perm, "
         "multisig_script_perm, subset_leaf_order_independent)",
@@ -67,6 +72,8 @@ CLAUSES = {
         "(multi_leaf_tree, pairwise different x-only keys) different subsets have different leaf scripts; for musig_tree "
         "the distinctness of the aggregate keys of different subsets is a hash property, checked on the implementation "
         "(tree_bijection)",
+    "object state": "MuSigTapScript keeps no message-, nonce- or root-dependent state (coefs, coef_lookup, point are fixed "
+        "at construction; no memo to model): checked by the object-reuse histories (history:session, history:bip340)",
     "a spend of each leaf by its subset verifies":
         "correspondence-only (needs the tapscript interpreter of C06/C07): sampled end-to-end through Tx.verify_input",
     "BIP340 verification": "proved (get_signature_bip340): with the tagged hashes instantiated by SHA-256 the 64 "
@@ -142,9 +149,10 @@ def timelocks(l, s):
     return (None if l is None else Locktime(l)), (None if s is None else Sequence(s))
 
 
-def run_session(parts, sig_hash, root, lock, seq):
+def run_session(parts, sig_hash, root, lock, seq, objs=None):
     """the signing session as test_musig.py drives it; returns the list of printed stages (REJECT from the first stage
-    that raises) and the objects needed by the predicates"""
+    that raises) and the objects needed by the predicates.  `objs = (musig, privs)`: run the session on these existing
+    objects (object-reuse histories) instead of building new ones"""
     from buidl.ecc import PrivateKey
     from buidl.taproot import MuSigTapScript
     out, info = [], {}
@@ -153,9 +161,12 @@ def run_session(parts, sig_hash, root, lock, seq):
     def rej():
         return out + [REJECT] * (total - len(out)), info
     try:
-        privs = [PrivateKey(d) for d, _, _ in parts]
-        lt, sq = timelocks(lock, seq)
-        musig = MuSigTapScript([p.point for p in privs], locktime=lt, sequence=sq)
+        if objs is not None:
+            musig, privs = objs
+        else:
+            privs = [PrivateKey(d) for d, _, _ in parts]
+            lt, sq = timelocks(lock, seq)
+            musig = MuSigTapScript([p.point for p in privs], locktime=lt, sequence=sq)
     except Exception:
         return rej()
     out.append(tok_pt(musig.point))
@@ -494,6 +505,72 @@ def p_spend_wrong(c):
     return not ok, bool(ok), False
 
 
+# --------------------------------------------------------------------------------- object-reuse histories
+def history_c13(case):
+    """ONE MuSigTapScript object and ONE set of PrivateKey objects used for several signing sessions with different
+    messages, merkle roots (none, A, B, A again …) and nonce sets; every aggregate is checked with the independent BIP340
+    verifier for the key tweaked with the CURRENT root, that key being computed from freshly built objects.
+    Returns [(kind, request line for the model, implementation answer)]"""
+    from buidl.ecc import PrivateKey
+    from buidl.taproot import MuSigTapScript
+    ds = case["ds"]
+    privs = [PrivateKey(d) for d in ds]
+    musig = MuSigTapScript([p.point for p in privs])
+    out = []
+    for sess in case["sessions"]:
+        parts = [(d, k1, k2) for d, (k1, k2) in zip(ds, sess["nonces"])]
+        sig_hash, root = unx(sess["sig_hash"]), unx(sess["root"])
+        for r2 in sess.get("touch", []):           # unrelated queries on the shared object before signing
+            try:
+                musig.point.tweaked_key(unx(r2)) if unx(r2) else musig.point.even_point()
+            except Exception:
+                pass
+        fields, info = run_session(parts, sig_hash, root, None, None, objs=(musig, privs))
+        verdict = REJECT
+        if len(fields) == 6 and "ss" in info:
+            try:
+                sig = musig.get_signature(sum(info["ss"]), info["r"], sig_hash, root)
+                again = musig.get_signature(sum(info["ss"]), info["r"], sig_hash, root)
+                raw = sig.serialize()
+                fields.append(xb(raw))
+                fresh = MuSigTapScript([PrivateKey(d).point for d in ds]).point
+                ext = fresh.tweaked_key(root) if root else fresh.even_point()
+                verdict = "1" if (bip340_verify(ext.xonly(), sig_hash, raw) and again.serialize() == raw) else REJECT
+            except Exception:
+                fields.append(REJECT)
+        ptoks = " ".join(f"{d} {k1} {k2}" for d, k1, k2 in parts)
+        out.append(("session", f"session {len(parts)} {ptoks} {xb(sig_hash)} {xb(root)} - - none", " ".join(fields)))
+        # the direct predicate as a pseudo request: the model side is the constant "1"
+        out.append(("bip340", f"#bip340 current-root {xb(root)} msg {xb(sig_hash)}", verdict))
+    return out
+
+
+def check_histories13(ctx, drv, cases):
+    rec = ctx.rec
+    outs = pmap(history_c13, cases, workers=ctx.workers, chunksize=1)
+    uniq = sorted({line for o in outs for _, line, _ in o if not line.startswith("#")})
+    answers = dict(zip(uniq, par_batch(drv, uniq, workers=ctx.workers)))
+    for case, o in zip(cases, outs):
+        rec.count("history:histories")
+        for step, (kind, line, im) in enumerate(o):
+            m = "1" if line.startswith("#") else answers[line]
+            if rec.compare(f"history:{kind}", {"history": case, "step": step, "line": line}, im, m, determined=True,
+                           key=f"{id(case)}:{step}"):
+                rec.sample(f"history:{kind}", {"step": step, "request": line[:200], "answer": m[:200]}, limit=1)
+            else:
+                break
+
+
+def replay_history13(ctx, case):
+    o = history_c13(case["history"])
+    step = case["step"]
+    if step >= len(o):
+        return False
+    kind, line, im = o[step]
+    m = "1" if line.startswith("#") else ctx.driver("drv_c13").one(line)
+    return im != m
+
+
 PREDICATES = {"session": p_session, "perm": p_perm, "tree_bijection": p_tree_bijection, "spend": p_spend,
               "spend_wrong": p_spend_wrong}
 
@@ -524,15 +601,18 @@ def run(ctx):
         """run model and implementation on what has been generated so far; False once the property has failed
         (the search for a failing input ends there: the remaining, more expensive stages are skipped)"""
         if lines:
-            model = batch_parallel(drv, [l for _, l, _ in lines], workers=ctx.workers)
-            impl = pmap(impl_line, [l for _, l, _ in lines], workers=ctx.workers)
+            from concurrent.futures import ThreadPoolExecutor
+            with ThreadPoolExecutor(max_workers=1) as ex:      # the model (native driver) runs while the real code does
+                fut = ex.submit(par_batch, drv, [l for _, l, _ in lines], ctx.workers)
+                impl = pmap(impl_line, [l for _, l, _ in lines], workers=ctx.workers, chunksize=4)
+                model = fut.result()
             for (kind, line, det), m, im in zip(lines, model, impl):
                 if rec.compare(kind, {"line": line}, im, m, determined=det, key=line[:300]):
                     rec.sample(kind, {"request": line[:300], "answer": m[:300]}, limit=1)
                 if im == REJECT or im.endswith(" " + REJECT):
                     rec.count(kind + ":reject")
         if preds:
-            results = pmap(eval_pred, preds, workers=ctx.workers)
+            results = pmap(eval_pred, preds, workers=ctx.workers, chunksize=1)
             for (kind, case), (ok, got, want) in zip(preds, results):
                 if ok:
                     rec.ok(kind, repr(case)[:300])
@@ -655,7 +735,7 @@ def run(ctx):
     rounds = 0
     while True:
         batch = [with_tampers(new_session(len(sessions) + i, tweaked=((len(sessions) + i) % 2 == 0))) for i in range(16 if len(sessions) >= target else (12 if not sessions else target - 12))]
-        results = pmap(eval_pred, [("session", c) for c in batch], workers=ctx.workers)
+        results = pmap(eval_pred, [("session", c) for c in batch], workers=ctx.workers, chunksize=1)
         for c, (ok, got, want) in zip(batch, results):
             sessions.append(c)
             if ok:
@@ -701,6 +781,25 @@ def run(ctx):
 
     if not flush():
         rec.note("stopped after the signing sessions: failing input found")
+        return
+
+    # ---- object-reuse histories: one MuSigTapScript object, several sessions (roots none, A, B, A …), reused participants
+    hcases = []
+    for hi in range(ctx.n(8, 60)):
+        n = 2 + hi % 3
+        ks = pick_set(n)
+        ra, rb = rbytes(rng, 32), rbytes(rng, 32)
+        roots = [b"", ra, rb, ra] if hi % 2 == 0 else [ra, b"", rb, b"", ra]
+        sess = []
+        for si, root in enumerate(roots[: (4 if not ctx.thorough else 5)]):
+            sess.append({"nonces": [(rng.randrange(1, N), rng.randrange(1, N)) for _ in range(n)],
+                         "sig_hash": xb(rbytes(rng, 32)), "root": xb(root),
+                         "touch": [xb(rng.choice([ra, rb, b""]))] if si % 2 == 1 else []})
+        hcases.append({"ds": [k[0] for k in ks], "sessions": sess})
+        rec.count(f"history:n={n}")
+    check_histories13(ctx, drv, hcases)
+    if rec.violations or rec.disagreements:
+        rec.note("stopped after the object-reuse histories: failing input found")
         return
 
     # ---- trees: all (k, n) with 1 <= k <= n <= 5
@@ -755,6 +854,8 @@ def run(ctx):
 def replay(ctx, v):
     """re-execute one recorded violation exactly; True if it still violates"""
     case = v["case"]
+    if "history" in case:
+        return replay_history13(ctx, case)
     if "line" in case:
         return impl_line(case["line"]) != ctx.driver("drv_c13").one(case["line"])
     ok, _, _ = eval_pred((case["pred"], case))
